@@ -23,7 +23,7 @@ Spaces (DESIGN.md section 4, C14) - every one is a finite domain that is enumera
                 independent recursive generator (shape, dtype, padding, no duplicates, no omissions)
   D  hook     : get_hook_length / get_young_diagram_mask / get_young_diagram_transpose for every partition of N <= 16
                 (28 thorough) against arm+leg hooks computed cell by cell and against the Young-lattice path count
-  E  tableaux : get_all_young_tableaux for every partition of N <= 9 (12 thorough): every tableau standard, pairwise
+  E  tableaux : get_all_young_tableaux for every partition of N <= 10 (12 thorough): every tableau standard, pairwise
                 distinct, the *set* equal to the set produced by an independent corner-removal generator, count ==
                 get_hook_length == hook formula == lattice path count; N <= 7: == brute-force filtering of all N!
                 fillings.  finalize: sum_lambda f(lambda)^2 == N! for every N (RSK identity) on the observed counts.
@@ -379,7 +379,7 @@ def table_catalogue(tier):
 
 BOUNDS = {
     #            pcount pfull diagram hook tableaux relabel atoms / max order
-    'quick':    dict(pcount=60, pfull=30, diagram=16, hook=16, tableaux=9, atoms=1, relabel_order=24),
+    'quick':    dict(pcount=60, pfull=30, diagram=16, hook=16, tableaux=10, atoms=1, relabel_order=24),
     'thorough': dict(pcount=300, pfull=60, diagram=36, hook=28, tableaux=12, atoms=2, relabel_order=120),
 }
 
